@@ -1,6 +1,7 @@
 package bondgo
 
 import (
+	"sort"
 	"strconv"
 )
 
@@ -149,19 +150,34 @@ func (reqmnt *BondgoRequirements) Init_Requirements(cfg *BondgoConfig) {
 func (reqmnt *BondgoRequirements) Dump_Requirements() string {
 	result := ""
 	result += "--- Processors ---\n"
-	for proc_id, procreq := range reqmnt.Procr {
+	ids := make([]int, 0)
+	for proc_id := range reqmnt.Procr {
+		ids = append(ids, proc_id)
+	}
+	sort.Ints(ids)
+	for _, proc_id := range ids {
 		result += "p" + strconv.Itoa(proc_id) + "\n"
-		result += procreq.Dump_Requirements()
+		result += reqmnt.Procr[proc_id].Dump_Requirements()
 	}
 	result += "--- IO ---\n"
-	for proc_id, ioreq := range reqmnt.IOr {
+	ids = ids[:0]
+	for proc_id := range reqmnt.IOr {
+		ids = append(ids, proc_id)
+	}
+	sort.Ints(ids)
+	for _, proc_id := range ids {
 		result += "proc " + strconv.Itoa(proc_id) + "\n"
-		result += ioreq.Dump_Requirements()
+		result += reqmnt.IOr[proc_id].Dump_Requirements()
 	}
 	result += "--- Channels ---\n"
-	for chan_id, chanreq := range reqmnt.Chanr {
+	ids = ids[:0]
+	for chan_id := range reqmnt.Chanr {
+		ids = append(ids, chan_id)
+	}
+	sort.Ints(ids)
+	for _, chan_id := range ids {
 		result += "ch" + strconv.Itoa(chan_id) + "\n"
-		result += chanreq.Dump_Requirements()
+		result += reqmnt.Chanr[chan_id].Dump_Requirements()
 	}
 	result += "--- Shared Memory ---\n"
 	// TODO
